@@ -43,6 +43,11 @@ ASSUMPTIONS = [
     "log-determinants are compared with a conditioning-aware tolerance 1e-8*(1+|logdet|) + 20*eps*cond(H): "
     "a 1e-8 ridge under a coefficient^2 ~ 50 Laplacian makes cond(H) ~ 4e10 and two LU factorizations then legitimately "
     "differ by ~1e-6 (observed <= 0.1*eps*cond); defects of the log-determinant are O(1)",
+    "histories (B after-solve, P, R, U) use differential oracles: the matrix of a fresh scheme instance on an independently "
+    "built twin object, compared bitwise (the computation is deterministic); copy.copy(linear_obj) followed by assigning "
+    ".regularization is the library's own idiom for deriving an object with another scheme; for the kernel schemes the "
+    "reuse pass additionally demands H C = coefficient * I for the documented covariance C of the SECOND mesh, but only when "
+    "the first use of the same instance obeys that formula (self-calibrated, so a changed kernel definition cannot alarm)",
 ]
 BOUNDS = {
     "quick": "S: rectangular meshes 3..6 x 3..6 (16 shapes), 8 Delaunay menus (5..10 vertices) x 2 jitter variants; coefficients "
